@@ -1135,7 +1135,6 @@ func onlyJumpsBetween(a, b *ssa.BasicBlock) bool {
 	return false
 }
 
-
 // isQueryOnlyArg: a constant argument below 1: runtime.GOMAXPROCS(n) with n < 1 only reports the current setting.
 func isQueryOnlyArg(v ssa.Value) bool {
 	k, ok := v.(*ssa.Const)
